@@ -424,15 +424,19 @@ func (c *fileCtx) insertP(b *ast.BlockStmt) {
 		return
 	}
 	var out []ast.Stmt
+	afterBefore := false
 	for _, st := range b.List {
 		switch st.(type) {
 		case *ast.DeclStmt, *ast.LabeledStmt, *ast.EmptyStmt:
 		default:
-			if !isSimrtCall(st) {
+			// never between simrt.BeforeBlock() and the native blocking statement it announces: the task has given up
+			// the baton there, and a preemption point executed without the baton would race with the running task
+			if !isSimrtCall(st) && !afterBefore {
 				out = append(out, callStmt("P"))
 				c.changed = true
 			}
 		}
+		afterBefore = isSimrtCallNamed(st, "BeforeBlock")
 		out = append(out, st)
 		ast.Inspect(st, func(n ast.Node) bool {
 			switch y := n.(type) {
@@ -483,6 +487,23 @@ func (c *fileCtx) insertPClauses(b *ast.BlockStmt) {
 			y.Body = nb.List
 		}
 	}
+}
+
+func isSimrtCallNamed(st ast.Stmt, name string) bool {
+	es, ok := st.(*ast.ExprStmt)
+	if !ok {
+		return false
+	}
+	ce, ok := es.X.(*ast.CallExpr)
+	if !ok {
+		return false
+	}
+	s, ok := ce.Fun.(*ast.SelectorExpr)
+	if !ok {
+		return false
+	}
+	id, ok := s.X.(*ast.Ident)
+	return ok && id.Name == "simrt" && s.Sel.Name == name
 }
 
 func isSimrtCall(st ast.Stmt) bool {
